@@ -217,14 +217,14 @@ macro_rules! impl_chunklen {
     )* };
 }
 
-impl_chunklen!(0, 1, 2, 3, 7, 8, 16, 17, 32, 100, 255, 256, 1024);
+impl_chunklen!(0, 1, 2, 3, 5, 6, 7, 8, 10, 12, 14, 16, 17, 24, 32, 48, 100, 255, 256, 1024);
 
 macro_rules! run_lens {
     ($st:expr, $args:expr, $E:ty, [$($n:literal),*]) => { $( if $n <= $args.maxn { <L<$n> as ChunkLen>::run::<$E>($st, &$args); } )* };
 }
 
 fn all_for<E: Elem>(st: &mut Stats, args: &Args) {
-    run_lens!(st, args, E, [0, 1, 2, 3, 7, 8, 16, 17, 32]);
+    run_lens!(st, args, E, [0, 1, 2, 3, 5, 6, 7, 8, 10, 12, 14, 16, 17, 24, 32, 48]);
     if args.thorough() || args.kv.contains_key("big") {
         run_lens!(st, args, E, [100, 255, 256, 1024]);
     } else {
@@ -232,9 +232,36 @@ fn all_for<E: Elem>(st: &mut Stats, args: &Args) {
     }
 }
 
+/// zero-sized elements allow slices longer than isize::MAX elements: the partition
+/// arithmetic must still hold there (nothing is dereferenced)
+fn huge_zst<N: generic_array::ArrayLength>(st: &mut Stats) {
+    let n = N::USIZE;
+    static UNITS: [(); usize::MAX] = [(); usize::MAX];
+    for l in [usize::MAX, usize::MAX - 1, isize::MAX as usize + 1, isize::MAX as usize, isize::MAX as usize - 1, 1usize << 40] {
+        st.check_case("C10", "chunks_from_slice", "()", || format!("C10 chunks_from_slice () N={n} L={l} (huge zero-sized slice)"), true, || {
+            let src: &[()] = &UNITS[..l];
+            let (c, r) = GA::<(), N>::chunks_from_slice(src);
+            if c.len() != l / n || r.len() != l % n {
+                return Err(format!("ChunkCount: {} chunks + {} remainder for L = {l}, N = {n}", c.len(), r.len()));
+            }
+            let flat = GA::<(), N>::slice_from_chunks(c);
+            if flat.len() != (l / n) * n {
+                return Err("InverseMismatch: slice_from_chunks on a huge zero-sized slice".into());
+            }
+            Ok(())
+        });
+    }
+}
+
 fn main() {
     let args = Args::parse();
     let mut st = Stats::new("chunks", &args);
+    if args.flavour_on("()") && args.maxn >= 8 {
+        huge_zst::<U<1>>(&mut st);
+        huge_zst::<U<2>>(&mut st);
+        huge_zst::<U<3>>(&mut st);
+        huge_zst::<U<8>>(&mut st);
+    }
     if args.flavour_on("u8") {
         all_for::<u8>(&mut st, &args);
     }
